@@ -212,6 +212,29 @@ def known_gate_witnesses(ctx):
             'rule': 'witnesses of known findings F1/F2 replayed on the binary'}
 
 
+def known_mixed_notation_witness(ctx):
+    """F30: a file that mixes two timestamp notations. The notation kept for the file is decided from the messages found
+    in block zero, so it depends on the block size; lines in the other notation become continuation lines (or, before the
+    first recognised line, are not printed)."""
+    import time as _t
+    fails, ev = [], 0
+    t0 = 1700000000
+    A = lambda t, i: _t.strftime('%Y-%m-%d %H:%M:%S', _t.gmtime(t)).encode() + b' A%03d alpha\n' % i
+    B = lambda t, i: _t.strftime('[%d/%b/%Y:%H:%M:%S +0000]', _t.gmtime(t)).encode() + b' B%03d beta\n' % i
+    data = A(t0, 0) + B(t0 + 1, 1) + B(t0 + 2, 2) + b''.join(A(t0 + 3 + i, 3 + i) for i in range(5))
+    p = os.path.join(ctx.work, 'f30.log')
+    open(p, 'wb').write(data)
+    rc0, out0, _, _ = run_plain(p)
+    rc1, out1, _, _ = run_plain(p, ['--blocksz', '64'])
+    ev += 2
+    if (rc0, out0) != (rc1, out1):
+        fails.append({'signature': 'analysis:notation-choice-depends-on-block-zero',
+                      'detail': f'1 line of notation A, 2 of notation B, 5 of A: default prints {len(out0)} bytes (first line missing: {not out0.startswith(data[:20])}), '
+                                f'--blocksz 64 prints {len(out1)} bytes', 'args': e2e.BASE_ARGS + ['--blocksz', '64', 'FILE'], 'file_hex': small_hex(data)})
+    os.unlink(p)
+    return {'evaluations': ev, 'distinct_nontrivial': 1, 'failures': fails, 'samples': [], 'rule': 'witness of known finding F30 (mixed notations) replayed on the binary'}
+
+
 def oracle_containers(ctx, n, kinds=('gz', 'bz2', 'xz', 'lz4', 'tar')):
     """C05: stdout(container) == stdout(plain), with and without a window, at two block sizes."""
     rng = e2e.Rng(ctx.seed * 41 + 13)
